@@ -337,7 +337,28 @@ func c18Streams_(c *Ctx) {
 					k.Input("path", path)
 				}
 				before := k.c.Rep.Counters["items_"+it.name]
-				stopMonitor(k, it.name, func() rawIter { return it.mk(x, path) }, stopOpts{errorLast: it.errorLast, limit: len(x) + 10})
+				mkIter := func() rawIter { return it.mk(x, path) }
+				if !it.file && k.Idx%3 == 1 && len(x) < 3000 {
+					// the source is an io.Reader of another dynamic type or state (see readerzoo.go), a fresh one per run
+					zoo := readerZoo(r, x, "")
+					z := zoo[r.IntN(len(zoo))]
+					k.Input("source", z.name)
+					var open []io.Closer
+					defer func() {
+						for _, cl := range open {
+							cl.Close()
+						}
+					}()
+					mkIter = func() rawIter {
+						src := z.mk()
+						if cl, ok := src.(io.Closer); ok {
+							open = append(open, cl)
+						}
+						return streamOver(it.name, src)
+					}
+					k.Count("streams_over_zoo_readers", 1)
+				}
+				stopMonitor(k, it.name, mkIter, stopOpts{errorLast: it.errorLast, limit: len(x) + 10})
 				if k.c.Rep.Counters["items_"+it.name]-before >= 2 {
 					k.Nontrivial([]byte(it.name), x, []byte(path[max(0, len(path)-3):]))
 				}
@@ -606,6 +627,52 @@ func abandonTraversals(r *rand.Rand) {
 	}
 }
 
+// nestedTraversals: inside the callback of a PreOrder (PostOrder) run over the
+// tree, at every node, a complete PostOrder (PreOrder) run over the same tree
+// and over the subtree of that node.
+func nestedTraversals(k *K, root *newick.Node) {
+	var wantPre, wantPost []*newick.Node
+	recPreOrder(root, &wantPre)
+	recPostOrder(root, &wantPost)
+	count := func(seq iter.Seq[*newick.Node], want []*newick.Node) bool {
+		i := 0
+		for n := range seq {
+			if i >= len(want) || n != want[i] {
+				return false
+			}
+			i++
+		}
+		return i == len(want)
+	}
+	i := 0
+	for n := range root.PreOrder() {
+		var subPost []*newick.Node
+		recPostOrder(n, &subPost)
+		if !count(root.PostOrder(), wantPost) || !count(n.PostOrder(), subPost) || !count(root.PreOrder(), wantPre) {
+			k.Failf("nested-traversal", "a traversal started inside the callback of a PreOrder run (at its item %d) does not visit the nodes in the documented order", i)
+			return
+		}
+		if i >= len(wantPre) || n != wantPre[i] {
+			k.Failf("nested-traversal", "a PreOrder run inside whose callbacks other traversals ran goes wrong at item %d", i)
+			return
+		}
+		i++
+	}
+	j := 0
+	for n := range root.PostOrder() {
+		if !count(root.PreOrder(), wantPre) || j >= len(wantPost) || n != wantPost[j] {
+			k.Failf("nested-traversal", "a PostOrder run inside whose callbacks PreOrder runs over the same tree ran goes wrong at item %d", j)
+			return
+		}
+		j++
+	}
+	if i != len(wantPre) || j != len(wantPost) {
+		k.Failf("nested-traversal", "runs inside whose callbacks other traversals ran yield %d / %d nodes, want %d", i, j, len(wantPre))
+		return
+	}
+	k.Count("nested_traversals", 1)
+}
+
 func checkTraversals(k *K, root *newick.Node, deep bool) {
 	var wantPre, wantPost []*newick.Node
 	if deep {
@@ -737,6 +804,12 @@ func c19Shapes(c *Ctx) {
 					checkTraversals(k, root, false)
 					if k.Failed() {
 						return
+					}
+					if len(w) <= 12 || len(w)%5 == 0 {
+						nestedTraversals(k, root)
+						if k.Failed() {
+							return
+						}
 					}
 				}
 				k.Evals(int64(hi-lo) - 1)
